@@ -104,7 +104,7 @@ def run(chk: harness.Check):
         "class-hierarchy resolution of generic trait calls): no function reachable from the parse entry points accesses "
         "a static/thread-local, uses interior mutability or synchronisation on a non-local place, iterates a hash table, "
         "reads ambient inputs, compares pointer identities or performs unsafe operations, except the reviewed entries of "
-        "tables/effects.toml; the parser type transitively contains no interior-mutable type; entry points take &self. "
+        "tables/effects.toml; nothing evaluated inside a tracing macro takes a `&mut` argument or consumes an iterator; the parser type transitively contains no interior-mutable type; entry points take &self. "
         "This decides the absence of hidden-state/nondeterminism sources (a necessary condition), not equality of results.")
     chk.trusted = ["rustc MIR construction and trait resolution (nightly)", "std and dependency crates summarised by path (pure unless matched by an effect pattern)",
                    "tracing dispatcher: calls return no data into the parse", "user-supplied ParseOptions closures and dyn Error sources are a stated boundary"]
@@ -224,6 +224,8 @@ def run(chk: harness.Check):
     stale = [k for k in allow if k not in used_allow]
     chk.notes["stale_allow_entries"] = ["|".join(k) for k in stale]
 
+    tracing_observation_only(chk, F, reach_local)
+
     # ---- D2: no writable shared state by type ----------------------------------------------
     bad_names = re.compile(r"\b(Cell|RefCell|UnsafeCell|OnceCell|LazyCell|Mutex|RwLock|OnceLock|LazyLock|Once|Atomic[A-Za-z0-9]+|Condvar)\b")
     root = "cooklang::CooklangParser"
@@ -285,6 +287,50 @@ def run(chk: harness.Check):
         ok, n, out = thorough.witnesses()
         chk.expect(ok and n >= 9, "C18.D3-witness", "doc-test witnesses", "witnesses/src/lib.rs",
                    f"type-level witnesses failed to hold ({n} passed): {out}", sample=f"{n} compile-pass / compile_fail witnesses hold (CooklangParser: Send + Sync, scoped threads share &parser)")
+
+
+TRACE_OK = ("tracing::", "<tracing::", "tracing_core::", "<tracing_core::", "core::fmt::", "std::fmt::", "<std::fmt::", "<core::fmt::",
+            "std::option::Option::<T>::expect", "core::panicking::", "std::panicking::")
+
+
+def tracing_observation_only(chk, F, reach_local):
+    """Whether a tracing callsite is enabled depends on the process-wide / per-thread subscriber, so anything evaluated as
+    part of a tracing macro must be observation only: besides tracing's own and fmt's functions (and the closures the
+    macros generate), a call made inside a tracing macro may not receive a `&mut` argument or consume an iterator —
+    otherwise the parse result depends on whether somebody is listening."""
+    from cfgq import call_result_edges
+    from facts import callee_def
+    n = 0
+    for fk in sorted(reach_local):
+        f = F.funcs[fk]
+        gates = []
+        for b, t in f.calls():
+            if (callee_key(t) or "").endswith("tracing::__macro_support::__is_enabled"):
+                gates += call_result_edges(f, b)[0]
+        if not gates:
+            continue
+        for b, t in f.calls():
+            if not any(f.edge_dominates(e, b) for e in gates):
+                continue
+            n += 1
+            ck = callee_key(t) or callee_def(t) or ""
+            if ck.startswith(TRACE_OK) or "{closure" in ck.rsplit("::", 1)[-1]:
+                continue
+            muts = []
+            for a in t.get("args", []):
+                p = a.get("move") or a.get("copy")
+                if p is not None and not p["p"]:
+                    ty = f.local_ty(p["l"]) or ""
+                    if ty.startswith("&mut") or "Iter<" in ty or "Peekable<" in ty or "IntoIter<" in ty:
+                        muts.append(ty[:50])
+            last = ck.rsplit("::", 1)[-1]
+            consuming = last in ("count", "next", "last", "sum", "fold", "for_each", "collect", "nth", "position", "find", "any", "all", "take", "drain",
+                                 "pop", "push", "insert", "remove", "clear", "next_back", "advance_by", "retain", "extend", "swap", "sort")
+            chk.expect(not muts and not (consuming and t.get("args")), "C18.tracing-pure", f"{region_of(fk)}|{last}", f.where(b),
+                       f"`{last}` runs only when a tracing subscriber enables the callsite (it is evaluated inside the enabled branch of a tracing macro) and takes a "
+                       f"mutable / consuming argument {muts[:1]}: the parse then depends on the tracing configuration of the process or thread",
+                       sample=f"{f.where(b)}: {last} inside an enabled-callsite branch takes no &mut / iterator")
+    chk.notes["calls_inside_tracing_macros"] = n
 
 
 def receiver_is_local(F: Facts, f, t) -> bool:
